@@ -29,6 +29,7 @@ class Contract:
         self.doc_view = None
         self.induction = ()
         self.theorems = ()
+        self.native_only = ()
         self.as_function = False
         self.reveal_in = ()
         self.invariants = {}     # ordinal -> (inv FunctionDef, var FunctionDef or None)
@@ -136,13 +137,15 @@ def load_contracts(index, only_props=None):
                 elif isinstance(st, ast.Assign) and isinstance(st.targets[0], ast.Name):
                     n = st.targets[0].id
                     if n not in ('raises', 'modifies', 'reveal', 'nullable', 'lemmas', 'opaque', 'result_kind', 'tactics',
-                                 'lemma', 'no_functional', 'kinds', 'doc_view', 'induction', 'as_function', 'reveal_in', 'theorems'):
+                                 'lemma', 'no_functional', 'kinds', 'doc_view', 'induction', 'as_function', 'reveal_in', 'theorems', 'native_only'):
                         continue        # native-only attributes (input generators of the bounded stand-in)
                     val = _const_eval(st.value, NSL)
-                    if n in ('raises', 'modifies', 'reveal', 'nullable', 'lemmas', 'induction', 'reveal_in', 'theorems'):
+                    if n in ('raises', 'modifies', 'reveal', 'nullable', 'lemmas', 'induction', 'reveal_in', 'theorems', 'native_only'):
                         setattr(c, n, tuple(val) if not isinstance(val, str) else (val,))
                     elif n in ('opaque', 'result_kind', 'tactics', 'lemma', 'no_functional', 'kinds', 'doc_view', 'as_function'):
                         setattr(c, n, val)
+            # clauses that only the bounded stand-in evaluates (they use Python features outside the verifier's subset, e.g. id())
+            c.posts = [(n, st) for n, st in c.posts if n not in c.native_only]
             if not c.no_functional:
                 for n, st in c.posts:
                     if n == 'post':
